@@ -3,10 +3,14 @@
 package c16
 
 import (
+	"bytes"
 	"fmt"
+	"github.com/google/pprof/internal/transport"
 	"io"
+	"log"
 	"math/rand"
 	"net/http"
+	"net/http/httptest"
 	"os"
 	"path/filepath"
 	"sort"
@@ -496,6 +500,106 @@ func run(c *harness.Ctx) harness.Result {
 	return res
 }
 
+// ---- real transport: an https source whose certificate does not verify must fail, whatever was
+// fetched before it (an https+insecure source in the same list must not switch verification off)
+
+type seqTransport struct {
+	inner     http.RoundTripper
+	firstHost string
+	firstDone chan struct{}
+	once      sync.Once
+}
+
+func (t *seqTransport) RoundTrip(req *http.Request) (*http.Response, error) {
+	if req.URL.Host != t.firstHost {
+		<-t.firstDone // the other request starts only after the first one has been answered
+	}
+	resp, err := t.inner.RoundTrip(req)
+	if req.URL.Host == t.firstHost {
+		t.once.Do(func() { close(t.firstDone) })
+	}
+	return resp, err
+}
+
+func runTLS(c *harness.Ctx) harness.Result {
+	r := c.Rng
+	drv.IsolateEnv(c.Tmp)
+	mk := func(v int64) (*httptest.Server, *profile.Profile) {
+		p := genProfile(r, int(v))
+		for _, s := range p.Sample {
+			for i := range s.Value {
+				s.Value[i] = v
+			}
+		}
+		var buf bytes.Buffer
+		p.Write(&buf)
+		body := buf.Bytes()
+		srv := httptest.NewUnstartedServer(http.HandlerFunc(func(w http.ResponseWriter, _ *http.Request) { w.Write(body) }))
+		srv.Config.ErrorLog = log.New(io.Discard, "", 0)
+		return srv, p
+	}
+	sa, pa := mk(100)
+	sb, _ := mk(1000)
+	func() {
+		defer func() { recover() }() // no loopback listener available
+		sa.StartTLS()
+		sb.StartTLS()
+	}()
+	if sa.URL == "" || sb.URL == "" {
+		return harness.Result{Verdict: harness.Inconclusive, Detail: "cannot listen on the loopback interface"}
+	}
+	defer sa.Close()
+	defer sb.Close()
+	insecure := "https+insecure://" + strings.TrimPrefix(sa.URL, "https://") + "/pprof/heap"
+	secure := sb.URL + "/pprof/heap"
+	insecureFirst := c.Index%2 == 0
+	srcs := []string{insecure, secure}
+	if r.Intn(2) == 0 {
+		srcs = []string{secure, insecure}
+	}
+	desc := fmt.Sprintf("sources %v, the https+insecure one answered first: %v", []string{"https+insecure://A", "https://B (self-signed)"}, insecureFirst)
+	res := harness.Result{NonTrivial: true, Sig: fmt.Sprint("tls", c.Index), Sample: map[string]any{"run": desc}}
+	flags := &drv.Flags{Bools: map[string]bool{"top": true, "functions": true, "flat": true, "trim": false}, Strs: map[string]string{"output": "out", "symbolize": "none", "sample_index": "v"}, Args: srcs}
+	first := strings.TrimPrefix(sa.URL, "https://")
+	if !insecureFirst {
+		first = strings.TrimPrefix(sb.URL, "https://")
+	}
+	st := &seqTransport{inner: transport.New(flags), firstHost: first, firstDone: make(chan struct{})}
+	s := &drv.Session{Flags: flags, RoundTr: st}
+	rr := s.Run()
+	st.once.Do(func() { close(st.firstDone) })
+	c.Stat("tls_sessions", 1)
+	if rr.Panic != "" {
+		return harness.Violation("%s: panic %s", desc, rr.Panic)
+	}
+	if rr.Err != nil {
+		return harness.Violation("%s: pprof failed although the https+insecure source can be fetched: %v %v", desc, rr.Err, trunc(s.UI.Errs))
+	}
+	nerr := 0
+	for _, e := range s.UI.Errs {
+		if strings.HasPrefix(e, secure+": ") {
+			nerr++
+		}
+	}
+	out := ""
+	if bf := s.Writer.Files["out"]; bf != nil {
+		out = bf.String()
+	}
+	h, _, err := parse.Top(out)
+	if err != nil {
+		return harness.Violation("%s: -top unparseable: %v", desc, err)
+	}
+	var want int64
+	for _, smp := range pa.Sample {
+		want += smp.Value[0]
+	}
+	if nerr != 1 || h.Total != want {
+		res.Verdict = harness.Violated
+		res.Detail = fmt.Sprintf("%s: the https source presents a certificate that does not verify, so it must fail with one error line and the report must be that of the other source alone (total %d); got %d error lines for it and total %d; ui: %v", desc, want, nerr, h.Total, trunc(s.UI.Errs))
+	}
+	return res
+}
+
 func sorted(m map[string][2]int64) []string {
 	var out []string
 	for k, v := range m {
@@ -540,9 +644,11 @@ func init() {
 		ID:    "C16",
 		Level: "fault_enumeration",
 		Rule: "source lists of 1,2,3,5,127,128,129,256,257,300 sources (cycled) with optional 1/2/130 bases; 30% of the profiles have another set or order of sample types ([v n], [v], [x v] instead of [n v]) so that only v is common; failing subset in {none, one, first, last, all-but-one, a whole 128-chunk, all, random} x failure kind per source in {Fetcher error, structurally invalid profile, missing file, HTTP 404, HTTP 500, garbage body}; every fetch blocks at a gate; the controller collects the fetches that have arrived (all outstanding ones, or what is there once no new one arrives for 60 ms - it assumes nothing about pprof's batch size) and releases them one by one in a seed-chosen permutation, each after the previous one completed (completion order inside every batch forced exactly; arrival/release/completion events recorded); every listed source must be asked for exactly once; 3-6 different completion orders per case. " +
-			"oracle: fails iff no source (or, with bases, no base) succeeded; exactly one UI error line per failed source naming it and none for good ones; byte-identical -traces across completion orders; -traces equal to the run listing only the successful sources; -top equal to the entry-wise signed sum of the successful profiles' reference reports. non-trivial = at least 2 sources; distinct = run description; distinct_observed = distinct release-order prefixes",
+			"part tls: pprof's own transport against two loopback TLS servers with self-signed certificates, one listed as https+insecure:// and one as https://, answered in a forced order: the https source must fail with one error line and the report be that of the other source alone. A case that does not finish within 2 min in 3 of 3 fresh processes is a hang (violation). oracle: fails iff no source (or, with bases, no base) succeeded; exactly one UI error line per failed source naming it and none for good ones; byte-identical -traces across completion orders; -traces equal to the run listing only the successful sources; -top equal to the entry-wise signed sum of the successful profiles' reference reports. non-trivial = at least 2 sources; distinct = run description; distinct_observed = distinct release-order prefixes",
 		Assumptions:   []string{"failing subsets and kinds are enumerated per list shape; completion orders are sampled (3-6 of n! per chunk)"},
-		Parts:         []harness.Part{{Name: "fetch", Quick: 400, Thor: 12000, Run: run}},
+		Parts:         []harness.Part{{Name: "fetch", Quick: 400, Thor: 12000, Run: run}, {Name: "tls", Quick: 8, Thor: 200, Run: runTLS}},
+		CaseTimeout:   2 * time.Minute,
+		HangTries:     3,
 		MinNonTrivial: func(string) int { return 100 },
 	})
 }
